@@ -179,7 +179,6 @@ def check_borders(case):
     if not np.array_equal(E_in, E):
         raise Violation("mutates-input", "get_borders changed the energies")
     # partition of 0..N into contiguous non-empty blocks
-    flat = [x for b in got for x in b]
     if (not got) or got[0][0] != 0 or got[-1][1] != N or any(b[1] <= b[0] for b in got) or \
             any(got[i][1] != got[i + 1][0] for i in range(len(got) - 1)):
         raise Violation("not-a-partition", f"E={E.tolist()} thresh={thresh} kramers={kram}: {got}")
